@@ -14,7 +14,7 @@ CONSTANTS
   MaxDgrams = 2
   Depth = 60
   EmitEvery = 20
-  Faults = {"cutsrc", "endsrc", "cutsink", "softcut"}
+  Faults = {"cutsrc", "cutsrcs", "endsrc", "cutsink", "softcut"}
   WithBind = FALSE
   AdvMsgs = {}
   MaxAdv = 0
